@@ -220,4 +220,17 @@ PROPS = {
         "assumptions": [],
         "not_decided": ["TSL, TSD and TSW pairs", "the record/replay nodes (memory_impl) beyond the dense index arithmetic (clang 14 cannot parse their translation unit)"],
     },
+    "C06": {
+        "modules": ["contracts.c06_wiring"],
+        "level": "proof",
+        "design_ref": "DESIGN.md section 8, C06",
+        "trusted_base": [
+            "defaulted operator== of SourceKey / InputKey / WiringNodeSchema is member-wise (the language rule; that they ARE defaulted is checked on the AST each run)",
+            "make_key / source_key_for copy the components they are given (their bodies are not under contract; add_node is checked to pass exactly this call's definition, schema, inputs and scalars)",
+            "unordered_map::find returns an entry only for an equal key (by the verified operator==); the hash is not a correctness obligation",
+            "verified configuration of add_node: no pending diagnostic label, no wiring observers",
+        ],
+        "assumptions": [],
+        "not_decided": ["sharing does not change any output; any admissible statement order yields identical streams (relations between two programs' runs)"],
+    },
 }
